@@ -88,6 +88,13 @@ def hsStr : HsResult → String
 
 def compatStr (enc dec : Pmce) : String := b (decide (dirCompatible enc dec))
 
+def pPmce (s : String) : Option Pmce :=
+  match commaParts s with
+  | [i, sn, cn, sw, cw, m] => do
+      let i ← if i = "d:1" then some true else if i = "d:0" then some false else none
+      pure ⟨i, ← pBool sn, ← pBool cn, ← sw.toNat?, ← cw.toNat?, ← m.toNat?⟩
+  | _ => none
+
 def frameShape (f : Frame) : String := s!"{b f.fin}.{f.rsv}.{f.opcode}.{f.payload.length}"
 
 def handle : List String → Option String
@@ -122,6 +129,16 @@ def handle : List String → Option String
       match negotiate o x y with
       | none => pure "none"
       | some r => pure s!"ok {pmceStr r.server} {pmceStr r.client} {compatStr r.server r.client} {compatStr r.client r.server}"
+  -- the Spec evaluated on the fields the REAL objects hold: s→c compatible, c→s compatible, same parameters
+  | ["pmce.spec", s, c] => do
+      let ps ← pPmce s
+      let pc ← pPmce c
+      pure s!"{compatStr ps pc} {compatStr pc ps} {b (decide (ps.params = pc.params))}"
+  -- the Spec `permittedBy` evaluated on a real offer and the response the real server rendered for it
+  | ["pmce.permitted", a, bb, c, w, cm, cn, sm, sn] => do
+      let o ← pOffer a bb c w
+      let r : Response := ⟨← cm.toNat?, ← pBool cn, ← sm.toNat?, ← pBool sn⟩
+      pure (b (decide (permittedBy o r)))
   | ["pmce.parse", h] => do
       let hs ← pChars h
       pure (extsStr (parseExtensionsHeader hs))
